@@ -21,7 +21,7 @@ DECIDING_COUNTERS = ["insn_statements_decoded", "programs"]
 MIN_DISTINCT = 500
 
 BASES_Q = [0o1000, 0, 0o100000]
-BASES_T = [0o1000, 0, 0o100000, 0o2, 0o40000, 0o157776, 0o177000, 0o77776]
+BASES_T = [0o1000, 0, 0o100000, 0o2, 0o40000, 0o157776, 0o170000, 0o77776]
 VALUES = [0, 1, 2, 0o77777, 0o100000, 0o177777, 0o177776, 0o123456, 0o401, 0o252, 0o125252, 0o1000]
 
 
